@@ -16,7 +16,9 @@ class Ctx:
     def __init__(self, pid, tier, seed):
         self.pid, self.tier, self.seed = pid, tier, seed
         self.t0 = time.time()
-        self.out = os.path.join(VERIF, "out", pid)
+        self.alt_repo = os.environ.get("VERIF_REPO", "/repo") != "/repo"
+        suffix = ("_" + os.environ["VERIF_REPO"].strip("/").replace("/", "_")) if self.alt_repo else ""
+        self.out = os.path.join(VERIF, "out", pid + suffix)
         shutil.rmtree(self.out, ignore_errors=True)
         os.makedirs(self.out, exist_ok=True)
         self.states = 0
@@ -251,6 +253,8 @@ def write_evidence(ctx, level, rule, explanation=None, trusted_base=None, exhaus
     }
     os.makedirs(os.path.join(VERIF, "evidence"), exist_ok=True)
     p = os.path.join(VERIF, "evidence", f"{ctx.pid}.json")
+    if ctx.alt_repo:      # a run against a scratch tree (mutant testing) never overwrites the real evidence
+        p = ctx.path("evidence.json")
     with open(p + ".tmp", "w") as f:
         json.dump(ev, f, indent=1, default=str)
     os.replace(p + ".tmp", p)
@@ -261,13 +265,32 @@ def digest(obj):
 
 
 def read_ndjson(path):
+    """Tolerant reader: a malformed (truncated) line becomes an ABORT event, which no trace spec consumes."""
     res = []
-    with open(path) as f:
+    if not os.path.exists(path):
+        return [{"e": "ABORT", "why": "no trace file"}]
+    with open(path, errors="replace") as f:
         for ln in f:
             ln = ln.strip()
             if ln:
-                res.append(json.loads(ln))
+                try:
+                    res.append(json.loads(ln))
+                except Exception:
+                    res.append({"e": "ABORT", "why": "malformed line"})
     return res
+
+
+def record_trace(ctx, bdir, name, args, trace_path, timeout=900, env=None):
+    """Run a recording harness.  A crash / sanitizer abort / timeout of the traced binary must not go unnoticed:
+    an ABORT event is appended, so the trace is rejected at that point (the verdict stays TLC's)."""
+    rc, _, err = run_harness(ctx, bdir, name, args, timeout=timeout, env=env)
+    if rc != 0:
+        ep = trace_path + ".stderr"
+        open(ep, "w").write(err or "")
+        ctx.log(f"harness {name} {args[0]} exited rc={rc}; ABORT event appended (stderr: {ep})")
+        with open(trace_path, "a") as f:
+            f.write("\n" + json.dumps({"e": "ABORT", "rc": rc, "why": (err or "").strip().splitlines()[-1][:200] if (err or "").strip() else ""}) + "\n")
+    return rc
 
 
 def write_ndjson(path, recs):
@@ -364,3 +387,32 @@ def validate_executions(ctx, module, cfg, trace_path, max_rejects=8, timeout=900
             break
     ctx.traces += total_ok
     return rejected
+
+
+def parse_beh(out, tag="BEH"):
+    """Extract PrintT(<<"BEH", value>>) outputs (TLC pretty-prints long values over several lines).
+    Returns python lists (TLA+ tuples -> lists, strings -> str, ints -> int, TRUE/FALSE -> bool)."""
+    res = []
+    buf = None
+    depth = 0
+    for ln in out.splitlines():
+        s = ln.strip()
+        if buf is None:
+            if s.startswith('<<"%s"' % tag) or s.startswith('<< "%s"' % tag):
+                buf = ""
+                depth = 0
+            else:
+                continue
+        buf += s + " "
+        depth += s.count("<<") - s.count(">>")
+        if depth <= 0:
+            txt = buf.replace("<<", "[").replace(">>", "]")
+            txt = re.sub(r"\bTRUE\b", "true", txt)
+            txt = re.sub(r"\bFALSE\b", "false", txt)
+            try:
+                v = json.loads(txt)
+                res.append(v[1] if len(v) == 2 else v[1:])
+            except Exception:
+                pass
+            buf = None
+    return res
